@@ -24,59 +24,85 @@ class Lib:
         self.prog = interp.prog
 
     # ------------------------------------------------------------------ type helpers
+    BUILTIN_ENUMS = {
+        'Either': ('Left', 'Right'),
+        'Component': ('Prefix', 'RootDir', 'CurDir', 'ParentDir', 'Normal'),
+        'ErrorKind': ('NotFound', 'PermissionDenied', 'AlreadyExists', 'Other', 'PathNotFound', 'WatchNotFound', 'MaxFilesWatch', 'Generic', 'Io', 'InvalidConfig'),
+        'TrySendError': ('Full', 'Closed'),
+        'Ordering': ('Less', 'Equal', 'Greater'),
+        'Poll': ('Ready', 'Pending'),
+    }
+
     def resolve_ctor(self, segs):
         """Resolve a constructor path to ('struct', Ty, None) or ('variant', Ty, Variant)."""
         I = self.I
         segs = list(segs)
+        if len(segs) >= 2 and segs[-2] in self.BUILTIN_ENUMS and segs[-1] in self.BUILTIN_ENUMS[segs[-2]]:
+            if self.prog.lookup_type(I.frame.module, segs[:-1]) is None:
+                return ('variant', segs[-2], segs[-1])
         if segs and segs[0] == 'Self' and I.frame.self_ty:
             segs[0] = I.frame.self_ty
         t = self.prog.lookup_type(I.frame.module, segs)
         if t is not None:
             mod, node = t
             if node['k'] == 'Struct':
-                return ('struct', node['name'], None)
+                return ('struct', self.type_id(mod, node['name']), None)
         if len(segs) >= 2:
             t = self.prog.lookup_type(I.frame.module, segs[:-1])
             if t is not None and t[1]['k'] == 'Enum':
                 if any(v['name'] == segs[-1] for v in t[1]['variants']):
-                    return ('variant', t[1]['name'], segs[-1])
+                    return ('variant', self.type_id(t[0], t[1]['name']), segs[-1])
         # variant imported directly (use Enum::Variant) not supported
         return None
 
-    def struct_fields(self, tyname):
-        c = self.prog.types_by_name.get(tyname)
-        if not c or len(c) != 1 and False:
-            return None
-        # several types can share a simple name (ResourcesState x3, Config x2): pick by current module context
-        node = None
+    def type_id(self, mod, name):
+        """Type identifier of a user type: its simple name, qualified by the module when the name is not unique."""
+        c = self.prog.types_by_name.get(name, [])
+        if len(c) > 1:
+            return '::'.join(mod + (name,))
+        return name
+
+    def split_tid(self, tid):
+        if '::' in tid:
+            parts = tid.split('::')
+            return tuple(parts[:-1]), parts[-1]
+        c = self.prog.types_by_name.get(tid, [])
         if len(c) == 1:
-            node = c[0][1]
-        else:
-            t = self.prog.lookup_type(self.I.frame.module, [tyname])
-            if t is None:
-                return None
-            node = t[1]
-        if node['k'] != 'Struct':
+            return c[0][0], tid
+        return None, tid
+
+    def struct_fields(self, tyname):
+        mod, name = self.split_tid(tyname)
+        if mod is None:
+            return None
+        m = self.prog.modules.get(mod)
+        node = m.types.get(name) if m else None
+        if node is None or node['k'] != 'Struct':
             return None
         return [(f['name'], f['ty']) for f in node['fields']]
 
-    def find_user_method(self, tyname, method):
+    def find_user_method(self, tyname, method, trait=None):
+        mod, name = self.split_tid(tyname)
+        if mod is None:
+            return None
         cands = []
         for m in self.prog.modules.values():
             for (ty, tr, fds) in m.impls:
-                if ty == tyname:
-                    for fd in fds:
-                        if fd.name == method:
-                            cands.append(fd)
+                if ty != name:
+                    continue
+                ap = self.prog.abs_path(m.path, [ty])
+                if ap is not None and ap != mod + (name,):
+                    continue
+                for fd in fds:
+                    if fd.name == method and (trait is None or (tr or '').split('::')[-1] == trait):
+                        cands.append(fd)
         if not cands:
             return None
         if len(cands) == 1:
             return cands[0]
-        # same simple type name in several modules: prefer impl in the module that defines the value's type,
-        # approximated by the current module first, then unique inherent.
-        same_mod = [c for c in cands if c.module == self.I.frame.module]
-        if len(same_mod) == 1:
-            return same_mod[0]
+        inherent = [c for c in cands if c.trait is None]
+        if len(inherent) == 1:
+            return inherent[0]
         raise Unsupported('ambiguous user method %s::%s' % (tyname, method))
 
     def ident_pattern_value(self, name):
@@ -264,13 +290,12 @@ class Lib:
         if t in ('PathBuf', 'String', '&Path', '&str', 'OsString', 'Box<str>', 'Arc<str>') and isinstance(v, str):
             return v
         # user From impls: impl From<X> for T
-        base = t.split('<')[0].split('::')[-1]
-        for m in self.prog.modules.values():
-            for (ty, tr, fds) in m.impls:
-                if ty == base and tr and tr.split('::')[-1] == 'From':
-                    for fd in fds:
-                        if fd.name == 'from':
-                            return self.I.call_fn(fd, [v])
+        segs = t.split('<')[0].split('::')
+        tt = self.prog.lookup_type(self.I.frame.module, segs)
+        if tt is not None:
+            fd = self.find_user_method(self.type_id(tt[0], tt[1]['name']), 'from', trait='From')
+            if fd is not None:
+                return self.I.call_fn(fd, [v])
         return v
 
     # ------------------------------------------------------------------ equality / operators
@@ -421,13 +446,7 @@ class Lib:
         if isinstance(v, Opaque) and v.tag == 'char':
             return v.get('c')
         if isinstance(v, (RStruct, REnum)) and v.ty not in ('Option', 'Result'):
-            fd = None
-            for m in self.prog.modules.values():
-                for (ty, tr, fds) in m.impls:
-                    if ty == v.ty and tr and tr.split('::')[-1] == 'Display':
-                        for f in fds:
-                            if f.name == 'fmt':
-                                fd = f
+            fd = self.find_user_method(v.ty, 'fmt', trait='Display')
             if fd is not None:
                 fm = Ref(I.alloc(Opaque('Formatter', buf='')), ())
                 I.call_fn(fd, [fm], self_arg=Ref(I.alloc(v), ()))
@@ -639,6 +658,8 @@ class Lib:
             return I.world.send(I, f.get('chan'), f.get('msg'), node)
         if kind == 'spawn_blocking':
             return I.call_value(f.get('f'), [], node)
+        if kind == 'script':
+            return I.world.run_script(I, f)
         if kind == 'ready':
             return f.get('value')
         if kind == 'join2':
@@ -723,6 +744,8 @@ class Lib:
             return err(args[0])
         if last2 == 'String::from_utf8_lossy':
             return I.deref(args[0])
+        if last2 == 'stream::iter':
+            return Opaque('Stream', items=tuple(self.iterate(args[0], node)))
         if last2 in ('channel::bounded', 'async_channel::bounded') or name == 'bounded':
             cap = I.deref(args[0])
             return W.new_channel(I, cap, node)
@@ -739,7 +762,7 @@ class Lib:
         if last2 == 'future::join_all':
             items = self.iterate(args[0], node)
             vals = [I.deref(x) for _, x in items]
-            if vals and all(isinstance(x, Opaque) and x.tag == 'JoinHandle' for x in vals) or not vals and self._looks_like_handles(args[0]):
+            if vals and all(isinstance(x, Opaque) and x.tag == 'JoinHandle' for x in vals):
                 return Opaque('Future', kind='join_all', handles=tuple(items))
             return Opaque('Future', kind='join_all_futs', items=tuple(items))
         if last2 == 'future::try_join_all':
@@ -813,6 +836,8 @@ class Lib:
                 return Opaque('IntoPending', value=v)
             return v
         if method == 'to_string':
+            if isinstance(v, Opaque) and v.tag == 'SymStr':
+                return v
             return self.to_display(v)
         if method == 'fuse':
             if isinstance(v, Opaque) and v.tag == 'Future' and v.get('kind') in ('call', 'block'):
@@ -1253,7 +1278,7 @@ class Lib:
             return self.mk_iter([(g, I.call_value(args[0], [x], node)) for g, x in self._forked(items)])
         if method == 'filter':
             out = []
-            for g, x in items:
+            for g, x in self._forked(items):
                 keep = I.deref(I.call_value(args[0], [x], node))
                 out.append((b_and(g, keep), x))
             return self.mk_iter(out)
@@ -1383,12 +1408,18 @@ class Lib:
                 b.append((g, x.items[1]))
             return RTuple((RVec(a), RVec(b)))
         if method == 'buffer_unordered':
-            return it
+            return Opaque('Stream', items=tuple(items))
         raise Unsupported('Iterator::%s' % method, node)
 
     def _forked(self, items):
-        """Resolve symbolic presence of items by forking (used where the element is transformed)."""
-        return items
+        """Resolve symbolic presence of items by forking (used where a closure is applied to the element)."""
+        out = []
+        for g, x in items:
+            if g is not True:
+                if not self.I.branch(g):
+                    continue
+            out.append((True, x))
+        return out
 
     # --- strings / paths
     def m_str(self, ref, s, method, args, node):
